@@ -589,6 +589,8 @@ def run(cx, tier='quick'):
     rep.counts['SEL'] = k
     from .c13 import include_own_scanners
     include_own_scanners(cx, facts, rep, ['::default::'])
+    from .scope import check_scopes
+    check_scopes(cx, rep, ['::default::'])
     rep.floor('SUM-DEFAULT', 12)
     rep.floor('SEL', 2)
     rep.assumptions += ['a user expression is evaluated as written', 'struct-expression semantics']
